@@ -244,6 +244,11 @@ def m_c08(sc, res):
         wr = written_by_hist(io_, at)
         roots = sorted(r for r in (O.history_roots(io_["asc_before"]) | {at}) if O.within(r, at))
         if at not in wr:
+            # a run that names existing files with -sf and succeeds has sealed them: the history at the command root gets a
+            # generation (at least one that carries the references down to the owner of the files)
+            named = [O.join(at, s) for s in (op.get("sf") or [])]
+            if named and io_["exit"] == 0 and all(io_["media_after"].get(n or ".", (None,))[0] is not None for n in named):
+                fails.append(_f(f"create at '{at}' -sf {op['sf']} exits 0 and writes no generation at all (new manifests: {sorted(wr)}), the named files exist", sc))
             continue
         patterns = wr[at][0][1]["ignore"]
         vis = O.visible(io_["media_after"], at, patterns)
